@@ -36,8 +36,8 @@ theorem source_persist (s : St) : source fresh (persist s) = s := by
   obtain ⟨e, d, t, a, fs, as, vs⟩ := s
   simp only [persist, fresh, optionLines, List.cons_append, List.nil_append, source, List.append_assoc]
   rw [source_funcs false false false [] [] fs]
+  rw [source_vars true false false ([] ++ fs) [] [] vs]
   rw [source_aliases true false false false ([] ++ fs) [] as]
-  rw [source_vars true false false ([] ++ fs) ([] ++ as) [] vs]
   simp [source]
 
 /-- without `errexit` every command of the sub-shell runs -/
